@@ -178,6 +178,8 @@ namespace DFS
   {
     const sector_count_type start = start_sector(), end=last_sector();
     unsigned long len = file_length();
+    if (0 == len)
+      return true;		// an empty file occupies no sectors at all.
     for (sector_count_type sec = start; sec <= end; ++sec)
       {
 	assert(sec <= end);
